@@ -56,13 +56,18 @@ def one_case(ctx, pred, ref, cfg, gm, src, variant=False):
                 ctx.disagree(f"global_bin_{m.lower()} (empty side)", inp, got, mod["value"])
         else:
             want = oracle.mask_score(m, ref != 0, pred != 0)
-            ok = close(float(got), float(want)) if m == "ASSD" else (want is not None and float(got) == want.numerator / want.denominator)
+            if got is None:
+                ok = False
+            elif m == "ASSD":
+                ok = close(float(got), float(want))
+            else:
+                ok = want is not None and float(got) == want.numerator / want.denominator
             if not ok:
                 ctx.violation(f"global_bin_{m.lower()} = {got}, but {m} of the binarised maps is {want}", inp, impl=s,
                               key={"kind": "global-value"})
             mod = ctx.driver().ask({"op": "metric", "m": m, "shape": list(pred.shape),
                                     "ref": gen.arr_json((ref != 0).astype(np.uint8)), "pred": gen.arr_json((pred != 0).astype(np.uint8))})
-            if not score_matches(mod, float(got)):
+            if got is None or not score_matches(mod, float(got)):
                 ctx.disagree(f"global_bin_{m.lower()}", inp, got, mod)
     return vals
 
